@@ -205,4 +205,8 @@ def run(ctx: Ctx) -> None:
 
     upgrade_table(ctx, "C13.R8")
 
+    from ..core import Alias
+    from . import c16
+
+    c16.run(Alias(ctx, "C13.R10", "both workers build the protocol wrapper from the negotiated ALPN value the same way (C16 skeleton for TCPServer.run)", only={"C16.R2"}, where=["TCPServer.run"]))
     ctx.assume("not decided: independence from segmentation (h11's incremental parser), TLS/ALPN negotiation itself, that h2 accepts the replayed bytes")
